@@ -364,6 +364,9 @@ func init() {
 		var args []interface{}
 		shards := 8
 		big := r.Tier == "thorough"
+		if big {
+			shards = 24 // the full grid applies every high size-bit flip (16 MB..2 GB allocations each)
+		}
 		for _, rw := range []int{core.F, core.M} {
 			for s := 0; s < shards; s++ {
 				args = append(args, codecJob{Kind: "entry", RW: rw, Shard: s, Of: shards, Big: big})
